@@ -13,15 +13,24 @@ from fv import sym
 from fv.sym import SymStr, SymInt, SymBool, SymPattern, engine, iv, mk_int
 
 
+def _cv():
+    from fv import choice
+    return choice
+
+
 def sym_len(x):
     if isinstance(x, SymStr):
         return x.length()
+    if isinstance(x, _cv().CV):
+        return _cv().apply(builtins.len, x)
     return builtins.len(x)
 
 
 def sym_int(x=0, *a):
     if isinstance(x, SymInt):
         return x
+    if isinstance(x, _cv().CV):
+        return _cv().apply(lambda v: builtins.int(v, *a), x)
     if isinstance(x, SymStr):
         s = x.strip()
         n = s.concrete_len()
@@ -42,12 +51,29 @@ def sym_int(x=0, *a):
 def sym_str(x=""):
     if isinstance(x, SymStr):
         return x
+    if isinstance(x, _cv().CV):
+        return _cv().apply(builtins.str, x)
     if isinstance(x, SymInt):
         return builtins.str(builtins.int(x))
     return builtins.str(x)
 
 
+def _norm_types(t):
+    """inside patched modules the names `str`/`int` are bound to our wrappers: map them back"""
+    if isinstance(t, tuple):
+        return tuple(_norm_types(c) for c in t)
+    if t is sym_str:
+        return str
+    if t is sym_int:
+        return int
+    return t
+
+
 def sym_isinstance(x, t):
+    t = _norm_types(t)
+    if isinstance(x, _cv().CV):
+        r = _cv().apply(lambda v: builtins.isinstance(v, t), x)
+        return builtins.bool(r)
     if isinstance(x, SymStr):
         ts = t if isinstance(t, tuple) else (t,)
         return any(c is str or c is SymStr for c in ts)
@@ -97,7 +123,11 @@ class ReProxy:
         return self._p(pattern, flags).findall(string)
 
 
-BUILTINS = {"len": sym_len, "int": sym_int, "str": sym_str, "isinstance": sym_isinstance}
+def sym_range(*a):
+    return builtins.range(*[builtins.int(x) if isinstance(x, (SymInt, _cv().CV)) else x for x in a])
+
+
+BUILTINS = {"len": sym_len, "int": sym_int, "str": sym_str, "isinstance": sym_isinstance, "range": sym_range}
 
 
 @contextlib.contextmanager
@@ -124,6 +154,11 @@ def patched(*modules, extra=None):
             for k, v in list(d.items()):
                 if isinstance(v, re.Pattern):
                     setg(d, k, SymPattern(v))
+                elif isinstance(v, dict) and any(isinstance(x, re.Pattern) for x in v.values()):
+                    # e.g. a module-level cache of compiled patterns
+                    for dk, dv in list(v.items()):
+                        if isinstance(dv, re.Pattern):
+                            setg(v, dk, SymPattern(dv))
                 elif isinstance(v, type) and v.__module__ == m.__name__:
                     for ck, cv_ in list(v.__dict__.items()):
                         if isinstance(cv_, re.Pattern):
